@@ -263,6 +263,12 @@ def d3_validation(ctx):
     ctx.check(rule, 'covobs.py:Covobs._set_cov#rejects[indefinite]', bool(neg) and ev, 'matrices with a negative eigenvalue are rejected', 'no eigenvalue sign test guards a raise', cov.loc(fc))
     # ... for every accepted input form (number, list of variances, matrix): the sign test must not sit under a test of the rank
     under = [g for s, g in rs if ('ev < 0' in g or '< 0' in g) and 'ndim' in g]
+    # ... and no path may leave the method before the test (an early `return` in the scalar / diagonal branches)
+    evc = [c for c in walk(fc) if isinstance(c, ast.Call) and (cov.dotted(c.func) or '') in ('numpy.linalg.eigvalsh', 'numpy.linalg.eigvals', 'numpy.linalg.eigh')]
+    early = [s_ for s_ in statements(fc) if isinstance(s_, ast.Return) and evc and s_.lineno < evc[0].lineno]
+    ctx.check(rule, 'covobs.py:Covobs._set_cov#rejects[indefinite]-no-early-exit', not early, 'every path that stores a covariance passes the eigenvalue test',
+              'the method returns at line %s before the eigenvalue test: a negative variance given as a number or as a list of variances is accepted' % (early[0].lineno if early else ''),
+              cov.loc(early[0]) if early else None)
     ctx.check(rule, 'covobs.py:Covobs._set_cov#rejects[indefinite]-all-forms', bool(neg) and not under, 'the sign test applies to scalar, diagonal and full input alike',
               'the eigenvalue sign test is only reached under `%s`: a negative variance given as a number or as a list of variances is accepted' % (under[0] if under else ''), cov.loc(fc))
     sq = [g for s, g in rs if 'shape[1] != self.N' in g or 'shape[0] !=' in g]
@@ -281,6 +287,60 @@ CONFIRMED_MEANS_SITES = {
     ('input.json', '_parse_json_dict.get_Obs_from_dict'), ('input.json', '_parse_json_dict.get_List_from_dict'),
     ('input.json', '_parse_json_dict.get_Array_from_dict'),
 }
+
+
+def check_lists_equal_eval(ctx, obs, rule):
+    """_check_lists_equal is a pure predicate on a list of configuration lists.  The extracted function (numpy and itertools.groupby
+    are the only outside names it may use) is evaluated on every combination of ranges / lists / arrays from a small pool that contains
+    the traps: equal content in different container types, same length and end points with different interior, prefix, empty."""
+    import copy as _copy
+    import itertools as _it
+    f = obs.func('_check_lists_equal')
+    key = 'obs.py:_check_lists_equal'
+    if any(isinstance(x, (ast.Import, ast.ImportFrom, ast.Global, ast.Nonlocal, ast.While, ast.With, ast.Lambda)) for x in walk(f)) or len(f.args.args) != 1:
+        ctx.unrec(rule, key, 'not a plain predicate: not evaluated', obs.loc(f))
+        return
+    try:
+        import numpy as _np
+    except Exception as ex_:       # the tooling interpreter always has numpy; without it nothing is decided
+        ctx.unrec(rule, key, 'numpy unavailable: %r' % ex_, obs.loc(f))
+        return
+    safe = {'len': len, 'isinstance': isinstance, 'range': range, 'list': list, 'tuple': tuple, 'set': set, 'next': next, 'all': all, 'any': any, 'zip': zip, 'iter': iter, 'type': type,
+            'enumerate': enumerate, 'min': min, 'max': max, 'sorted': sorted, 'bool': bool, 'int': int, 'True': True, 'False': False}
+    g = _copy.deepcopy(f)
+    g.decorator_list = []
+    try:
+        ns = {'__builtins__': safe, 'np': _np, 'groupby': _it.groupby, 'itertools': _it}
+        exec(compile(ast.fix_missing_locations(ast.Module(body=[g], type_ignores=[])), '<lists-equal>', 'exec'), ns)
+        fn = ns[f.name]
+    except Exception as ex_:
+        ctx.unrec(rule, key, 'cannot evaluate: %r' % ex_, obs.loc(f))
+        return
+    pool = [range(1, 20, 2), list(range(1, 20, 2)), [1, 2, 4, 5, 8, 9, 12, 13, 16, 19], _np.arange(1, 20, 2), range(1, 11), list(range(1, 11)), [1, 3, 4, 5, 6, 7, 8, 9, 10, 10][:9] + [10],
+            range(1, 10), [1, 2, 3], range(1, 4), [1, 2, 4], [], range(0), [5], range(5, 6), [6]]
+    wrong = []
+    count = 0
+    for k in (1, 2, 3):
+        for combo in _it.product(range(len(pool)), repeat=k):
+            if k == 3 and (combo[0] > 6 or combo[1] > 10):
+                continue
+            lists = [pool[i_] for i_ in combo]
+            want = all(list(x) == list(lists[0]) for x in lists[1:])
+            count += 1
+            try:
+                got = bool(fn(lists))
+            except NameError as ex_:
+                ctx.unrec(rule, key, 'cannot evaluate: %r' % ex_, obs.loc(f))
+                return
+            except Exception as ex_:
+                got = 'raised %r' % ex_
+            # soundness of the shortcut: True only for identical content.  (False for equal content in different container types -
+            # a range and the list of its elements - is the behaviour of the groupby implementation and merely takes the general path.)
+            if (got is True and not want) or isinstance(got, str):
+                wrong.append(([repr(x) for x in lists], got, want))
+    ctx.check(rule, key, not wrong, 'True only if all configuration lists hold the same numbers in the same order (%d combinations of ranges / lists / arrays evaluated)' % count,
+              '_check_lists_equal(%s) returns %s, expected %s%s' % (wrong[0] + (' (%d more)' % (len(wrong) - 1) if len(wrong) > 1 else '',)) if wrong else '', obs.loc(f))
+    ctx.info['check_lists_equal_combinations'] = count
 
 
 def merge_idx_rules(ctx, obs, rule, which=(('_merge_idx', 'union'), ('_intersection_idx', 'intersection'))):
@@ -342,10 +402,7 @@ def d5_idl_normalisation(ctx, obs):
     """configuration lists are held as a range exactly when equally spaced: _merge_idx / _intersection_idx normalise their result"""
     rule = 'C04-D5'
     merge_idx_rules(ctx, obs, rule)
-    f = obs.func('_check_lists_equal')
-    t = obs.text(f)
-    ok = 'groupby($$A)' in t and 'next(g, True) and (not next(g, False))' in t
-    ctx.check(rule, 'obs.py:_check_lists_equal', ok, 'all elements equal <=> exactly one group', '_check_lists_equal differs')
+    check_lists_equal_eval(ctx, obs, rule)
     # N = sum of chain lengths, shape = len(idl) in the constructor
     f = obs.func('Obs.__init__')
     sh = [s for s in statements(f) if isinstance(s, ast.Assign) and unparse(s.targets[0]) == 'self.shape[name]']
